@@ -8,7 +8,9 @@ usage: tools_seed.py <PID> <n> [--skip-confirm]
 import json, os, re, shutil, subprocess, sys, time
 pid, n = sys.argv[1], sys.argv[2]
 skip = "--skip-confirm" in sys.argv
-W = "/tmp/seed/%s" % pid
+ROOT = os.environ.get("SEED_ROOT", "/tmp/seed")
+OFFSET = int(os.environ.get("SEED_OFFSET", "0"))
+W = "%s/%s" % (ROOT, pid)
 OUT = W + "/OUT"
 patch = "%s/patch%s.diff" % (OUT, n)
 demo = "%s/demo%s.rs" % (OUT, n)
@@ -71,7 +73,7 @@ rc, o = run(["git", "apply", patch], target)
 assert rc == 0, o
 caught = {}
 try:
-    cenv = dict(os.environ, VERIF_FACT_CACHE="1", VERIF_REPO=target, VERIF_EVIDENCE_DIR="/tmp/seed/evidence-%s-%s" % (pid, n))
+    cenv = dict(os.environ, VERIF_FACT_CACHE="1", VERIF_REPO=target, VERIF_EVIDENCE_DIR="%s/evidence-%s-%s" % (ROOT, pid, n))
     for c in claimed:
         tier = "thorough" if c == pid else "quick"
         rc, o = run(["./check", c, "--tier", tier], "/verif", env=cenv)
@@ -79,13 +81,13 @@ try:
         caught[c] = {"exit": rc, "tier": tier, "reports": [v[:300] for v in viol if "VIOLATION" not in v][:6]}
 finally:
     run(["git", "checkout", "--", "."], target)
-    shutil.rmtree("/tmp/seed/evidence-%s-%s" % (pid, n), ignore_errors=True)
+    shutil.rmtree("%s/evidence-%s-%s" % (ROOT, pid, n), ignore_errors=True)
 res["checks"] = caught
 det = [c for c, v in caught.items() if v["exit"] != 0]
 print("DETECTED BY:", det)
 for c in det:
     for r in caught[c]["reports"][:3]: print("   ", c, r[:260])
-d = "/verif/seeded/%s-%s" % (pid, n)
+d = "/verif/seeded/%s-%s" % (pid, int(n) + OFFSET)
 os.makedirs(d, exist_ok=True)
 prev_conf = None
 if skip and os.path.exists(d + "/meta.json"):
